@@ -41,6 +41,15 @@ def pathway_sets(ck, qr, numpy, rng, MockTwoDResponseCalculator):
            expect_violation="Complete")
     ck.tlc("Pathways", "Pathways_defect_esa.cfg", count=False,
            expect_violation="Sound")
+    # uncoupled molecules: cross peaks cancel exactly (every dipole vector
+    # with components in {-1,0,1} for dimers: decides the identity, of degree
+    # <= 2 in every component, for all real dipoles; trimers on {0,1}^9, in
+    # the thorough tier on {-1,0,1}^9)
+    ck.tlc("PathwaysUncoupled", "PathwaysUncoupled_2.cfg", workers=16)
+    ck.tlc("PathwaysUncoupled", "PathwaysUncoupled_3full.cfg" if ck.thorough
+           else "PathwaysUncoupled_3.cfg", workers=16, timeout=2500)
+    ck.tlc("PathwaysUncoupled", "PathwaysUncoupled_defect.cfg", count=False,
+           expect_violation="CrossPeaksCancel")
 
     def system(energies, dipoles, coupling, transfer):
         mols = []
@@ -157,6 +166,7 @@ def pathway_sets(ck, qr, numpy, rng, MockTwoDResponseCalculator):
                         "decades of the threshold, skipped" % label)
                 continue
             rec = {}
+            allp = []
             for nm in names:
                 with contextlib.redirect_stdout(io.StringIO()):
                     lst = agg.liouville_pathways_3T(ptype=nm, eUt=eUt, t2=t2)
@@ -174,8 +184,43 @@ def pathway_sets(ck, qr, numpy, rng, MockTwoDResponseCalculator):
                         ck.violation("pathway-sign", "%s:%s" % (label, nm),
                                      dict(rp, type=nm), rp)
                 rec[nm] = out
+                allp.extend((nm, lp) for lp in lst)
                 ck.case("pathway-set", (label, nm), nontrivial=len(out) > 0,
                         sample=dict(system=label, type=nm, count=len(out)))
+            if not cp and not trn:
+                # PathwaysUncoupled.tla on the real pathway objects: signed
+                # orientational weights (sign * F4n, all three components)
+                # grouped by the frequencies of the three intervals cancel at
+                # every cross peak
+                EE = numpy.real(numpy.diag(numpy.array(agg.HH)))
+                groups = {}
+                wmax = 0.0
+                for nm, lp in allp:
+                    st = numpy.array(lp.states)
+                    k3 = 3 if lp.relax_order else 2
+                    k2 = 2 if lp.relax_order else 1
+                    w1 = abs(EE[st[0, 0]] - EE[st[0, 1]])
+                    w2 = EE[st[k2, 0]] - EE[st[k2, 1]]
+                    w3 = EE[st[k3, 0]] - EE[st[k3, 1]]
+                    key = (lp.pathway_type, round(w1, 9), round(w2, 9),
+                           round(w3, 9))
+                    wv = float(lp.sign) * numpy.array(lp.F4n)
+                    wmax = max(wmax, float(numpy.abs(wv).max()))
+                    groups[key] = groups.get(key, 0.0) + wv
+                ncross = 0
+                for key, wv in groups.items():
+                    if key[1] == key[3]:
+                        continue
+                    ncross += 1
+                    ck.case("cross-peak-weights-cancel", (label,) + key)
+                    if numpy.abs(wv).max() > 1e-12 * max(wmax, 1e-300):
+                        ck.violation("cross-peak-weights-cancel",
+                                     "%s:%s" % (label, key[0]),
+                                     dict(rp, group=list(key),
+                                          weight=wv.tolist()), rp)
+                if ncross == 0 and len(en) > 1 and \
+                        sum(1 for d in dp if any(d)) > 1:
+                    raise MachineryFailure("no cross peak in " + label)
             systems.append(dict(
                 ne=ne, nf=nf, b1=[e for e in E if D2[e, 0] > dip_tol],
                 b2=[[f, e] for f in F for e in E if D2[f, e] > dip_tol],
